@@ -47,6 +47,7 @@ type c20HOp struct {
 }
 
 type c20HCfg struct {
+	ECN    bool  `json:"ecn,omitempty"` // ECN enabled: packets are marked as the handler says, ACK frames carry ECT(0) / CE counts
 	Server bool  `json:"server"`
 	MDS    int64 `json:"mds"`
 	Start  int64 `json:"start"`
@@ -85,6 +86,11 @@ type c20HRun struct {
 	eventPrior protocol.ByteCount // the shadow when the current ACK / timer event began
 	sizes      map[protocol.PacketNumber]protocol.ByteCount
 	spyCalls   int
+	marks      map[protocol.PacketNumber]protocol.ECN
+	counted    map[protocol.PacketNumber]bool
+	ect0, ce   int64
+	curAckTop  protocol.PacketNumber // largest acknowledged of the ACK frame being processed
+	ceEvents   int
 	open   map[protocol.PacketNumber]*c20HFrame
 	sentPN []protocol.PacketNumber // all packet numbers used (including pure ACKs)
 
@@ -109,14 +115,14 @@ func (r *c20HRun) fail(sig, f string, a ...any) {
 }
 
 func c20HNew(cfg c20HCfg) *c20HRun {
-	r := &c20HRun{cfg: cfg, now: monotime.Time(cfg.Start), mds: protocol.ByteCount(cfg.MDS), open: map[protocol.PacketNumber]*c20HFrame{}, seen: map[string]bool{}, sizes: map[protocol.PacketNumber]protocol.ByteCount{}}
+	r := &c20HRun{cfg: cfg, now: monotime.Time(cfg.Start), mds: protocol.ByteCount(cfg.MDS), open: map[protocol.PacketNumber]*c20HFrame{}, seen: map[string]bool{}, sizes: map[protocol.PacketNumber]protocol.ByteCount{}, marks: map[protocol.PacketNumber]protocol.ECN{}, counted: map[protocol.PacketNumber]bool{}}
 	pers := protocol.PerspectiveClient
 	if cfg.Server {
 		pers = protocol.PerspectiveServer
 	}
 	rtt := utils.NewRTTStats()
 	rtt.SetMaxAckDelay(25 * time.Millisecond)
-	r.h = NewSentPacketHandler(0, r.mds, rtt, &utils.ConnectionStats{}, true, false, nil, pers, nil, utils.DefaultLogger).(*sentPacketHandler)
+	r.h = NewSentPacketHandler(0, r.mds, rtt, &utils.ConnectionStats{}, true, cfg.ECN, nil, pers, nil, utils.DefaultLogger).(*sentPacketHandler)
 	// the handshake is over: only the application-data packet number space is left
 	r.h.DropPackets(protocol.EncryptionInitial, r.now)
 	r.h.DropPackets(protocol.EncryptionHandshake, r.now)
@@ -197,6 +203,14 @@ func (s *c20Spy) OnCongestionEvent(pn protocol.PacketNumber, lostBytes, priorInF
 	if priorInFlight != s.r.eventPrior {
 		s.r.fail("C20|handler|controller-told-wrong-bytes-in-flight|lost", "OnCongestionEvent(packet %d): prior bytes in flight %d, independent count before this event %d", pn, priorInFlight, s.r.eventPrior)
 	}
+	if lostBytes == 0 {
+		// an ECN-CE report: the controller takes the number as "the packet up to which this congestion was
+		// seen" and cuts back once per window - it has to be the largest packet the ACK acknowledges
+		s.r.ceEvents++
+		if pn != s.r.curAckTop {
+			s.r.fail("C20|handler|controller-told-wrong-packet|ecn-ce", "OnCongestionEvent for an ECN-CE report names packet %d, the ACK's largest acknowledged is %d", pn, s.r.curAckTop)
+		}
+	}
 	if sz, ok := s.r.sizes[pn]; lostBytes != 0 && (!ok || sz != lostBytes) {
 		s.r.fail("C20|handler|controller-told-wrong-packet|lost", "OnCongestionEvent(packet %d, %d bytes): sent with %d bytes (known: %v)", pn, lostBytes, sz, ok)
 	}
@@ -222,7 +236,12 @@ func (r *c20HRun) send(size protocol.ByteCount, ackEliciting, mtuProbe bool) {
 		r.sizes[pn] = size
 	}
 	r.sentPN = append(r.sentPN, pn)
-	r.h.SentPacket(r.now, pn, protocol.InvalidPacketNumber, nil, frames, protocol.Encryption1RTT, protocol.ECNNon, size, mtuProbe, false)
+	ecn := protocol.ECNNon
+	if r.cfg.ECN {
+		ecn = r.h.ECNMode(true)
+		r.marks[pn] = ecn
+	}
+	r.h.SentPacket(r.now, pn, protocol.InvalidPacketNumber, nil, frames, protocol.Encryption1RTT, ecn, size, mtuProbe, false)
 }
 
 func (r *c20HRun) size(b int64) protocol.ByteCount {
@@ -307,7 +326,24 @@ func (r *c20HRun) opAck(op c20HOp) {
 	}
 	r.ackFrames++
 	r.eventPrior = r.shadow
-	_, err := r.h.ReceivedAck(&wire.AckFrame{AckRanges: ranges, DelayTime: time.Duration(op.E) * time.Microsecond}, protocol.Encryption1RTT, r.now)
+	ack := &wire.AckFrame{AckRanges: ranges, DelayTime: time.Duration(op.E) * time.Microsecond}
+	r.curAckTop = ack.LargestAcked()
+	if r.cfg.ECN {
+		// cumulative counts as a conformant receiver reports them; now and then the network marks one or
+		// two of the newly acknowledged packets CE
+		for _, pn := range sel {
+			if r.marks[pn] == protocol.ECT0 && !r.counted[pn] {
+				r.counted[pn] = true
+				if op.E%5 == 0 && op.D%3 != 2 {
+					r.ce++
+				} else {
+					r.ect0++
+				}
+			}
+		}
+		ack.ECT0, ack.ECNCE = uint64(r.ect0), uint64(r.ce)
+	}
+	_, err := r.h.ReceivedAck(ack, protocol.Encryption1RTT, r.now)
 	if err != nil {
 		r.ackErrs++
 	}
@@ -381,7 +417,7 @@ func (r *c20HRun) fingerprint() string {
 var c20HSizes = []int64{1200, 1252, 1280, 1350, 1452}
 
 func c20HGen(rng *rand.Rand) (c20HCfg, []c20HOp) {
-	cfg := c20HCfg{Server: rng.IntN(2) == 0, MDS: c20HSizes[rng.IntN(len(c20HSizes))], Start: int64(time.Hour) + rng.Int64N(int64(time.Hour))}
+	cfg := c20HCfg{ECN: rng.IntN(2) == 0, Server: rng.IntN(2) == 0, MDS: c20HSizes[rng.IntN(len(c20HSizes))], Start: int64(time.Hour) + rng.Int64N(int64(time.Hour))}
 	rtt := math.Exp(math.Log(1e4) + rng.Float64()*(math.Log(5e9)-math.Log(1e4))) // 10 µs … 5 s
 	wLoss := rng.IntN(4)
 	wTimer := rng.IntN(3)
@@ -498,6 +534,7 @@ func TestVerifC20SendMode(t *testing.T) {
 			c.Eval(r.fingerprint())
 			l.Count("handler_histories", 1)
 			l.Count("controller_calls_checked", int64(r.spyCalls))
+			l.Count("ecn_ce_events_checked", int64(r.ceEvents))
 			l.Count("sendmode_any", int64(r.nAny))
 			l.Count("sendmode_pacing_limited", int64(r.nPacing))
 			l.Count("sendmode_ack_congestion_limited", int64(r.nAckCong))
